@@ -41,17 +41,19 @@ META = {
         "R2: warning-level emissions without a tag (reporter.warning, logger.warning without type=) are a closed, reasoned list of "
         "functions, closed under 'helper whose every call site is in the list' (code may be moved into private helpers). "
         "R3: no catalogue member loses its last typed site. "
-        "R4: (a,b) _is_suppressed_warning (found by name, or by role if renamed) is called, and suppress_warnings is read, only by "
+        "R4: (a,b) _is_suppressed_warning (found by name, or by role if renamed) is called, and suppress_warnings / myst_suppress_warnings "
+        "is read (attribute, getattr / .get / subscript with that name), only by "
         "create_warning, by helpers whose every call site is create_warning (transitively; indirect calls through a local alias or a "
         "literal dispatch table are resolved), and by the tabled MathJax notice. (c) create_warning and the 'emitter' helpers it "
         "delegates to are analysed as units: every path to a node builder (reporter.warning, system_message, _create_warning_node, "
         "append; builders inside helpers are followed) passes the not-suppressed edge of a suppression test, or a not-None test of "
         "an emitter's result; the suppressed branch returns None without effects; the test is asked about the emitted tag strings in "
         "(type, subtype) order - wtype with default 'myst' and the subtype's str/.value, followed through locals, helper parameters, "
-        "tuple/NamedTuple records and hoisted constants; a fixed string is a violation. (d) in the matcher, the branch facts that "
+        "tuple/NamedTuple records and hoisted constants; a fixed string is a violation; the optional parent is attached under a None test of append_to, not a truth-value test (an "
+        "empty docutils element is falsy). (d) in the matcher, the branch facts that "
         "dominate each exit are classified: the scan (for loop or `return any(...)`) visits the whole list, no negative or computed "
         "answer and no break leaves it under a condition on the current entry, every positive answer is dominated by `type part == "
-        "type` and a sub-target test, the union of the positive answers accepts exactly bare type / type.subtype / type.*, the two "
+        "type` (equality: a prefix / suffix / substring comparison is a violation) and a sub-target test, the union of the positive answers accepts exactly bare type / type.subtype / type.*, the two "
         "parts come from split('.', 1) guarded by `'.' in entry` resp. from (entry, None), or from entry.partition('.') (whose bare "
         "sentinel is ''); conditional expressions are branches and split / predicate helpers are followed with parameters substituted. "
         "R5: the value returned by create_warning (None when suppressed) is only discarded, returned by a wrapper whose call sites "
@@ -70,7 +72,8 @@ META = {
     ),
     "not_decided": (
         "per-document equality of the outputs under different suppress lists (needs the documents); Sphinx's own logger-side "
-        "suppression filter; how often a call site runs (a warning emitted once per group instead of once per item); idioms outside "
+        "suppression filter; how often a call site runs (a warning emitted once per group instead of once per item, or skipped "
+        "because of a cross-parse cache - state that outlives a parse is C15's subject); idioms outside "
         "the modelled subset answer ANALYSIS-ERROR (str.partition, flag-and-break scans, results passed to unresolvable callees)"
     ),
     "trusted_base": ["CPython ast", "mystsa call graph plus the alias/dispatch-table resolution in this module", "mystsa.flow dominators (branch facts)"],
@@ -791,6 +794,7 @@ class _TagRoles:
         return self.UNKNOWN, f"default type is {short(default, 40)}"
 
 
+_SUPPRESS_NAMES = ("suppress_warnings", "myst_suppress_warnings")
 _NODE_EFFECTS = (".append", ".extend", ".insert", ".warning", ".error", ".info", "_create_warning_node", "system_message")
 
 
@@ -866,7 +870,7 @@ def _find_isw(corpus: Corpus, cw: FunctionInfo) -> FunctionInfo:
         if f.fq not in conf:
             continue
         for c in f.local_nodes():
-            if isinstance(c, ast.Call) and any(isinstance(x, ast.Attribute) and x.attr in ("suppress_warnings", "myst_suppress_warnings") for a in list(c.args) + [k.value for k in c.keywords] for x in ast.walk(a)):
+            if isinstance(c, ast.Call) and any((isinstance(x, ast.Attribute) and x.attr in _SUPPRESS_NAMES) or (isinstance(x, ast.Constant) and x.value in _SUPPRESS_NAMES) for a in list(c.args) + [k.value for k in c.keywords] for x in ast.walk(a)):
                 for h in resolver(c, f):
                     if h.module is w and len(h.params) >= 3:
                         cands[h.fq] = h
@@ -904,15 +908,24 @@ def r4_suppression_confined(corpus: Corpus, rep: Report, tier: str):
     for fi in corpus.all_functions():
         nodes = fi.local_nodes() if not fi.is_lambda else list(ast.walk(fi.node.body))
         for n in nodes:
-            if isinstance(n, ast.Attribute) and n.attr in ("suppress_warnings", "myst_suppress_warnings") and isinstance(n.ctx, ast.Load):
+            attr = None
+            if isinstance(n, ast.Attribute) and n.attr in _SUPPRESS_NAMES and isinstance(n.ctx, ast.Load):
+                attr = n.attr
+            elif isinstance(n, ast.Call) and dotted(n.func) == "getattr" and len(n.args) >= 2 and isinstance(_lit(n.args[1], fi), ast.Constant) and _lit(n.args[1], fi).value in _SUPPRESS_NAMES:
+                attr = _lit(n.args[1], fi).value  # the same read, spelled with a string
+            elif isinstance(n, ast.Call) and isinstance(n.func, ast.Attribute) and n.func.attr == "get" and n.args and isinstance(_lit(n.args[0], fi), ast.Constant) and _lit(n.args[0], fi).value in _SUPPRESS_NAMES:
+                attr = _lit(n.args[0], fi).value
+            elif isinstance(n, ast.Subscript) and isinstance(n.ctx, ast.Load) and isinstance(_lit(n.slice, fi), ast.Constant) and _lit(n.slice, fi).value in _SUPPRESS_NAMES:
+                attr = _lit(n.slice, fi).value
+            if attr is not None:
                 owner = fi
-                k = f"{fi.fq}|reads {n.attr}"
+                k = f"{fi.fq}|reads {attr}"
                 if owner.fq in allowed_readers:
                     rep.ok("C14.R4", k, fi.module.site(n), allowed_readers[owner.fq])
                 elif owner.fq in conf:
                     rep.ok("C14.R4", k, fi.module.site(n), "helper only called from create_warning")
                 else:
-                    rep.violation("C14.R4", k, fi.module.site(n), f"{fi.qualname} reads {n.attr}: output other than the suppressed warning may depend on the suppress list")
+                    rep.violation("C14.R4", k, fi.module.site(n), f"{fi.qualname} reads {attr}: output other than the suppressed warning may depend on the suppress list")
     # (c) inside create_warning: per front-end branch, suppression test first, node built after
     resolver = _resolver_of(corpus)
     _check_create_warning(cw, isw, rep, resolver, conf)
@@ -1108,6 +1121,21 @@ def _check_unit(u: _Unit, top: FunctionInfo, isw: FunctionInfo, rep: Report, res
             rep.violation("C14.R4", k, cw.module.site(c), f"`{short(c, 40)}` can run {h.name}, which builds the message node without a suppression test, and the call has not passed one either: a suppressed warning still reaches the doctree")
         else:
             rep.ok("C14.R4", k, cw.module.site(c), "the call itself is dominated by the not-suppressed edge")
+    # the optional parent: `if append_to is not None` - a truth-value test would skip an EMPTY parent element
+    for b in builders:
+        if not ((dotted(b.func) or "").endswith(".append") and isinstance(b.func, ast.Attribute) and isinstance(b.func.value, ast.Name) and b.func.value.id in cw.params):
+            continue
+        pname = b.func.value.id
+        facts_p = [(tt, pp) for tt, pp in cfg.guards(cfg.stmt_of(b)) if pname in _names(tt)]
+        k = f"{cw.fq}|{pname} guard"
+        none_tests = [1 for tt, pp in facts_p if isinstance(tt, ast.Compare) and len(tt.ops) == 1 and _is_name(tt.left, pname) and is_const(tt.comparators[0], None) and (isinstance(tt.ops[0], (ast.IsNot, ast.NotEq)) == pp)]
+        truthy = [tt for tt, pp in facts_p if _is_name(tt, pname) and pp]
+        if none_tests:
+            rep.ok("C14.R4", k, cw.module.site(b), "the message node is attached whenever a parent is given")
+        elif truthy:
+            rep.violation("C14.R4", k, cw.module.site(b), f"the message node is attached only if `{pname}` is truthy: a docutils element without children is falsy, so the warning is missing from the doctree when the given parent is still empty (a None test is meant)")
+        elif facts_p:
+            rep.error("C14.R4", f"{cw.qualname}: condition on `{pname}` before `{short(b, 40)}` not understood")
     for b in builders:
         st = cfg.stmt_of(b)
         k = f"{cw.fq}|{short(b, 70)}"
@@ -1427,6 +1455,22 @@ class _Forms:
             return None
         return got if pol else ("loop-unknown", f"not {unparse(call)}")
 
+    def _loose(self, test: ast.expr) -> tuple[str, str, str] | None:
+        """A prefix / suffix / substring comparison between a part of the entry and the warning's type or subtype:
+        a near-synonym of equality that accepts more (or other) entries.  -> (kind, entry part name, description)"""
+        pair = None
+        if isinstance(test, ast.Compare) and len(test.ops) == 1 and isinstance(test.ops[0], (ast.In, ast.NotIn)) and isinstance(test.left, ast.Name) and isinstance(test.comparators[0], ast.Name):
+            pair = (test.left.id, test.comparators[0].id, "substring test (`in`)")
+        elif isinstance(test, ast.Call) and isinstance(test.func, ast.Attribute) and test.func.attr in ("startswith", "endswith", "find", "count", "__contains__") and isinstance(test.func.value, ast.Name) and len(test.args) == 1 and isinstance(test.args[0], ast.Name):
+            pair = (test.func.value.id, test.args[0].id, f".{test.func.attr}()")
+        if pair is None:
+            return None
+        a, b, how = pair
+        for part, param in ((a, b), (b, a)):
+            if part in self.loopnames and part != self.entry and param in (self.p_type, self.p_sub):
+                return ("type-loose" if param == self.p_type else "sub-loose"), part, how
+        return None
+
     def classify(self, test: ast.expr, pol: bool) -> tuple:
         """One branch fact -> (kind, ...):
         ("type", name, holds) name ==/!= warning type; ("sub", name, values, holds); ("dot", holds) '.' in entry;
@@ -1456,6 +1500,9 @@ class _Forms:
                 return ("dot", pol == isinstance(test.ops[0], ast.In))
             if _is_name(test.left, self.p_type) and _is_name(test.comparators[0], self.p_list):
                 return ("bare-member", pol == isinstance(test.ops[0], ast.In))
+        loose = self._loose(test)
+        if loose is not None:
+            return (loose[0], px + loose[1], loose[2], pol)
         tv = self.tail_values(test)
         if tv is not None:
             name, vals, neg = tv
@@ -1473,6 +1520,8 @@ class _Forms:
         # loop-invariant
         if isinstance(test, ast.Compare) and len(test.ops) == 1 and isinstance(test.left, ast.Name) and test.left.id in (self.p_type, self.p_sub, self.p_list) and is_const(test.comparators[0], None) and isinstance(test.ops[0], (ast.Is, ast.IsNot, ast.Eq, ast.NotEq)):
             return ("harmless", "None test of a parameter (create_warning never passes None)")
+        if isinstance(test, ast.Name) and test.id in (self.p_type, self.p_sub):
+            return ("harmless", "truth value of a parameter (create_warning never passes None or an empty string)")
         if names and names <= {self.p_list, "len"}:
             return ("harmless", "emptiness of the suppress list")
         return ("inv-unknown", unparse(test))
@@ -1493,7 +1542,7 @@ def _f_unknown(f: tuple) -> bool:
 
 
 def _f_loopdep(f: tuple) -> bool:
-    return f[0] in ("type", "sub", "dot", "loop-unknown", "harmless-entry") or (f[0] in ("or", "and") and any(_f_loopdep(x) for x in f[1]))
+    return f[0] in ("type", "sub", "dot", "loop-unknown", "harmless-entry", "type-loose", "sub-loose") or (f[0] in ("or", "and") and any(_f_loopdep(x) for x in f[1]))
 
 
 def _f_implies(f: tuple, kind: str) -> bool:
@@ -1634,14 +1683,20 @@ def _check_forms(isw: FunctionInfo, rep: Report, dotfree: bool, resolver=None) -
         case = None if not dots else ("dotted" if True in dots else "bare")  # entries this answer is given for
         types = [f for f in fs if f[0] == "type" and f[2]]
         subs = [f for f in fs if f[0] == "sub" and f[3]]
+        loose_t = [f for f in fs if f[0] == "type-loose" and f[-1]]
+        loose_s = [f for f in fs if f[0] == "sub-loose" and f[-1]]
         if not types:
-            if reachable_without(r, "type"):
+            if loose_t:
+                viol.append((kf + "|type", msite(r), f"the entry's type part `{loose_t[0][1]}` is compared with the warning's type by a {loose_t[0][2]}, not by equality: an entry that is only a part of the type (or contains it) suppresses the warning"))
+            elif reachable_without(r, "type"):
                 viol.append((kf + "|type", msite(r), "a positive answer is given without comparing the entry's type part with the warning's type: entries of another type suppress the warning"))
             else:
                 unsup.append("positive answer: the type comparison does not dominate it (merged paths not understood)")
             return
         if not subs and case != "bare":
-            if reachable_without(r, "sub"):
+            if loose_s:
+                viol.append((kf + "|sub-target", msite(r), f"the part after the dot `{loose_s[0][1]}` is compared with the warning's subtype by a {loose_s[0][2]}, not by equality: `type.sub` also suppresses other subtypes"))
+            elif reachable_without(r, "sub"):
                 viol.append((kf + "|sub-target", msite(r), "a positive answer is given without testing the part after the dot: `type.other_subtype` suppresses every warning of the type"))
             else:
                 unsup.append("positive answer: the sub-target test does not dominate it (merged paths not understood)")
@@ -2497,6 +2552,13 @@ def mutants(corpus: Corpus):
         out.append(Mutant("c14-suppressed-branch-still-attaches", "C14.R4", w.rel, splice(w.src, ret, f"if append_to is not None:\n{i}    append_to.append(nodes.comment('', message))\n{i}return None"), expect="create_warning"))
     else:
         out.append(("c14-docutils-test-dropped", f"create_warning has {len(tests)} suppression tests, expected 2"))
+    # 4b. near-synonyms: truth value instead of None test for the optional parent
+    f = w.func("create_warning")
+    gi = find_node(f, lambda n: isinstance(n, ast.If) and isinstance(n.test, ast.Compare) and isinstance(n.test.left, ast.Name) and n.test.left.id in f.params and isinstance(n.test.ops[0], ast.IsNot) and is_const(n.test.comparators[0], None) and any(isinstance(c, ast.Call) and (dotted(c.func) or "") == f"{n.test.left.id}.append" for c in ast.walk(n)))
+    if gi is not None:
+        out.append(Mutant("c14-append-parent-truth-tested", "C14.R4", w.rel, splice(w.src, gi.test, gi.test.left.id), expect="guard"))
+    else:
+        out.append(("c14-append-parent-truth-tested", "create_warning has no `if <parent> is not None: <parent>.append(...)`"))
     # 5. _is_suppressed_warning: accepted forms and the scan of the whole list
     f = w.func("_is_suppressed_warning")
     p_list = f.params[2] if len(f.params) > 2 else None
@@ -2556,6 +2618,13 @@ def mutants(corpus: Corpus):
         out.append(Mutant("c14-first-type-match-decides", "C14.R4", w.rel, splice(w.src, ifst, f"if not ({ty}):\n{i}    continue\n{i}return {su}"), expect="every entry consulted", canary=True))
         out.append(Mutant("c14-else-return-false-in-loop", "C14.R4", w.rel, splice(w.src, ifst, f"{seg}\n{i}else:\n{i}    return False"), expect="every entry consulted"))
         out.append(Mutant("c14-break-after-type-match", "C14.R4", w.rel, splice(w.src, ifst, f"{seg}\n{i}if {ty}:\n{i}    break"), expect="every entry consulted|break"))
+        tcmp = ifst.test.values[0]
+        if isinstance(tcmp, ast.Compare) and isinstance(tcmp.ops[0], ast.Eq):
+            l_, r_ = unparse(tcmp.left), unparse(tcmp.comparators[0])
+            out.append(Mutant("c14-type-compared-by-prefix", "C14.R4", w.rel, splice(w.src, tcmp, f"{r_}.startswith({l_})"), expect="accepted forms|type"))
+            out.append(Mutant("c14-type-compared-by-substring", "C14.R4", w.rel, splice(w.src, tcmp, f"{l_} in {r_}"), expect="accepted forms|type"))
+        else:
+            out.append(("c14-type-compared-by-prefix", "the type test is not an == comparison"))
         out.append(Mutant("c14-star-suppresses-any-type", "C14.R4", w.rel, splice(w.src, ifst, f"{seg}\n{i}if {unparse(ifst.test.values[1].left)} == '*':\n{i}    return True"), expect="accepted forms|type"))
     else:
         out.append(("c14-first-type-match-decides", "no `if <type test> and <sub-target test>: return True` in the loop"))
@@ -2608,6 +2677,7 @@ def mutants(corpus: Corpus):
     # 7. suppress list read elsewhere
     f = base.func("DocutilsRenderer.render_hr")
     out.append(Mutant("c14-suppress-list-read-in-renderer", "C14.R4", base.rel, splice(base.src, f.node.body[0], "if 'myst.hr' in self.md_config.suppress_warnings:\n            return\n        " + ast.get_source_segment(base.src, f.node.body[0])), expect="render_hr"))
+    out.append(Mutant("c14-suppress-list-read-by-name-string", "C14.R4", base.rel, splice(base.src, f.node.body[0], "if 'myst.hr' in (getattr(self.document.settings, 'myst_suppress_warnings', None) or []):\n            return\n        " + ast.get_source_segment(base.src, f.node.body[0])), expect="render_hr"))
     # 8. .name instead of .value in log_warning / in create_warning
     r = corpus.mod("sphinx_ext.myst_refs")
     f = r.func("MystReferenceResolver.log_warning")
